@@ -291,7 +291,11 @@ def _replay(src, prog, options):
                 except BaseException as e:
                     res.append('raised %s: %s' % (type(e).__name__, e))
             print(src); print('inputs', kw, gl); print('VM without options / with', options, ':', res); print('reference semantics (C01):', {{want}})
-            if res[0] != res[1] or str(res[1][0] if isinstance(res[1], tuple) else res[1]) != str({{want}}): print('REPLAY-CONFIRMED')
+            def exc(x):
+                return x.split()[-1].rstrip(':') if isinstance(x, str) and 'raised' in x else None
+            want = {{want}}
+            same_failure = exc(want) is not None and all(isinstance(r, str) and r.split(':')[0].split()[-1] == exc(want) for r in res)
+            if not same_failure and (res[0] != res[1] or str(res[1][0] if isinstance(res[1], tuple) else res[1]) != str(want)): print('REPLAY-CONFIRMED')
             """, src=src, kw=kw, gl=gl, options=options, want=_ref_concrete(prog, kw, gl))
     return mk
 
@@ -305,7 +309,7 @@ def _ref_concrete(prog, kw, gl):
         return f"reference raised {type(e).__name__}"
 
 
-def _run_program(R, oid, name, prog, options, minimal, fn):
+def _run_program(R, oid, name, prog, options, minimal, fn, timeout_fails=True):
     import copy
     src = rs.render(prog, minimal=minimal)
     r, exc = vs.program(src, options)
@@ -335,6 +339,8 @@ def _run_program(R, oid, name, prog, options, minimal, fn):
         try:
             got, vm = vs.invoke(r, prog["call"], setglobals=gvm, **kw)
         except PathTimeout:
+            if not timeout_fails:
+                raise          # sampled programs: a slow path (huge symbolic terms) is skipped, never a verdict
             # the reference interpreter has finished this path (in at most 4000 steps); the VM has not come back within the path budget
             return [("terminates", z3.BoolVal(False), f"the reference semantics finish this run in {it.steps} steps, the VM did not return within the path budget")]
         goals = [("result", _eqv(got, want), f"VM returned a value of type {type(got).__name__}")]
